@@ -86,7 +86,7 @@ def specs(tier):
 
 def _make(name, modk, kwargs):
     BF, BR = _classes()
-    stubs.install((BF, 'uniform', stubs.s_uniform))
+    stubs.install((BF, 'uniform', stubs.s_uniform), (BF, 'np', stubs.numpy_shim_light), (BF, 'float', ops.sfloat))
     cls = getattr(BF if modk == 'BF' else BR, name)
     return cls(**kwargs)
 
